@@ -32,7 +32,7 @@ CHECKS = {
  "C07": dict(cat="exploration", ref="5/C07",
    technique="runtime monitoring: \\clbrdrt/\\clbrdrb/\\clbrdrl/\\clbrdrr of parsed rows vs the border hierarchy, clause by clause",
    text="Random border-style choices for rtf_page.border_first/last and rtf_body.border_first/last with all header modes, footnote/source forms, placements, page counts and strategies are rendered by the real library; the first/last table row of the document, the last table row before every page break, the first data row of every page and every other data-cell edge are read back and compared with the hierarchy of the statement. Empty settings accept both readings; boundary rows on which the user configured an own border are skipped (quantifier: user borders on interior rows).",
-   note="trusted: reader; body border_first/last scalar; matrix-shaped user borders only on one-page plain tables"),
+   note="trusted: reader; body border_first/last scalar; matrix-shaped user borders bound to the original row on every page"),
  "C08": dict(cat="exploration", ref="5/C08",
    technique="runtime monitoring: \\cellx vectors of every parsed table row compared with the configured table width and the proportional division",
    text="Generated tables (1..12 columns, explicit/default relative widths, custom table widths, all header modes, page_by/subline_by removing columns at any position, table footnote/source, multi-section documents, components reused from an earlier document) are encoded by the real library; every parsed row must end at round(col_width*1440) +-1, data rows must divide that width in proportion to the displayed columns' col_rel_width, and header rows without own widths must line up cell by cell with the data columns.",
